@@ -45,6 +45,7 @@ def gen_history(rng):
     for i in range(n):
         oc = rng.choice(OUTCOMES)
         steps.append({"outcome": oc, "overlap_probe": oc == "blocked" and rng.random() < 0.7, "probes": rng.choice((1, 1, 2, 3)),
+                      "flood": oc == "blocked" and rng.random() < 0.35,
                       "own_cb": oc != "blocked" and rng.random() < 0.4})
     return steps
 
@@ -62,6 +63,10 @@ ACTIONS = {
     "sysexit": 'channel.send(("end", {tag}, time.monotonic()))\nraise SystemExit(2)',
     "kbi": 'channel.send(("end", {tag}, time.monotonic()))\nraise KeyboardInterrupt()',
     "blocked": 'x = channel.receive()\nchannel.send(("end", {tag}, time.monotonic()))',
+    # blocked, but busy sending large items all the while (frames of the running body and the refusals written by the
+    # receiver thread share the connection)
+    "blocked_flood": ('n = 0\nwhile True:\n    channel.send(("big", n, b"x" * 100000))\n    n += 1\n    try:\n        x = channel.receive(0.002)\n'
+                      '        break\n    except channel.TimeoutError:\n        pass\nchannel.send(("end", {tag}, time.monotonic()))'),
     # ends by itself a little after the grace period of an overlapping submission has run out
     "timed": 'time.sleep(1.035)\nchannel.send(("end", {tag}, time.monotonic()))',
 }
@@ -88,7 +93,21 @@ def run_history(res: Result, gw, steps, label, hid, main_ident=None):
     for i, st in enumerate(steps):
         tag = hid * 100 + i
         oc = st["outcome"]
-        ch = gw.remote_exec(body_for(tag, oc, main_ident, own_cb=st.get("own_cb", False)))
+        flood = oc == "blocked" and st.get("flood", False)
+        bigs = [0]
+
+        def recv(ch_, timeout=15):
+            """next item that is not part of the running body's flood (which is checked on the way)"""
+            while True:
+                it = ch_.receive(timeout)
+                if isinstance(it, tuple) and it and it[0] == "big":
+                    if it[1] != bigs[0] or it[2] != b"x" * 100000:
+                        res.violation("blocked-body-disturbed", f"{label}: step {i}: flood item #{bigs[0]} arrived as {short(it, 80)}")
+                    bigs[0] = it[1] + 1
+                    continue
+                return it
+
+        ch = gw.remote_exec(body_for(tag, "blocked_flood" if flood else oc, main_ident, own_cb=st.get("own_cb", False)))
         if oc.startswith("timed"):
             oc = "timed"
         try:
@@ -142,7 +161,9 @@ def run_history(res: Result, gw, steps, label, hid, main_ident=None):
                 res.violation("blocked-body-disturbed", f"{label}: step {i}: send -> {type(e).__name__}: {e}")
                 return
         try:
-            end = ch.receive(15)
+            end = recv(ch)
+            if flood:
+                res.count("flooding_blocked_bodies")
         except BaseException as e:
             res.violation("body-did-not-finish" if oc != "blocked" else "blocked-body-disturbed", f"{label}: step {i} ({oc}): {type(e).__name__}: {str(e)[-200:]}")
             return
